@@ -438,3 +438,64 @@ def ob_interface_containers(r, tier, seed):
 _obl_c13c = obligations_c13
 def obligations_c13():
     return _obl_c13c() + [Ob('O13.8-interface-containers', 'no std HashMap / HashSet is serialized into an interface file', ob_interface_containers, ('quick', 'thorough'), 2, {})]
+
+# ----------------------------------------------------------------------------- O15.7 every part of a core file is covered by its validation
+def replay_altered_core():
+    """real CLI: build Main, alter a string literal inside core_ir of Main.core, link"""
+    import tempfile, subprocess, shutil, os
+    from vlib import build
+    d = tempfile.mkdtemp(prefix='vf-c15c-')
+    try:
+        os.makedirs(os.path.join(d, 'out'))
+        open(os.path.join(d, 'main.gom'), 'w').write('package Main\nfn main() -> unit { let _ = string_println("hello"); () }\n')
+        b = build.compiler_bin()
+        r1 = subprocess.run([b, 'build', '--package', 'Main', '--input', os.path.join(d, 'main.gom'), '--output', os.path.join(d, 'out', 'Main')], capture_output=True, text=True, timeout=60)
+        cp = os.path.join(d, 'out', 'Main.core')
+        if r1.returncode != 0 or not os.path.exists(cp): return False, 'could not build Main: ' + (r1.stdout + r1.stderr)[-200:]
+        txt = open(cp).read()
+        if 'hello' not in txt: return False, 'unexpected core layout'
+        open(cp, 'w').write(txt.replace('hello', 'HACKED'))
+        r2 = subprocess.run([b, 'link', '--input', cp, '--output', os.path.join(d, 'out', 'b.go')], capture_output=True, text=True, timeout=60)
+        go = open(os.path.join(d, 'out', 'b.go')).read() if os.path.exists(os.path.join(d, 'out', 'b.go')) else ''
+        return r2.returncode == 0 and 'HACKED' in go, '`compiler build` Main, replace "hello" by "HACKED" inside core_ir of Main.core, `compiler link`: exit %d, the emitted Go %s' % (r2.returncode, 'prints HACKED' if 'HACKED' in go else 'does not contain the altered text')
+    finally:
+        shutil.rmtree(d, ignore_errors=True)
+
+def ob_core_coverage(r, tier, seed):
+    W = e2.fresh_world(CRATES)
+    CU = W.tt.find_adt(['artifact', 'CoreUnit'], 'compiler'); IU = W.tt.find_adt(['artifact', 'InterfaceUnit'], 'compiler')
+    r.bounds = 'CoreUnit::validate on a core whose version fields, package, interface and deps are the valid ones; each remaining field of CoreUnit (read from the type: %s) is an opaque value that cannot be inspected without the run failing' % [f[0] for f in CU.variants[0].fields]
+    r.assumptions = ['InterfaceUnit::validate_hash stubbed to true (checked by O15.2 / O15.4)', 'oracle (C15: core files that were altered are rejected): validate() cannot return true without having inspected every field of the core file; a field it never reads can be altered freely']
+    for nm in list(W.methods.get('validate_hash', [])): W.stubs[nm[1]] = lambda ex, a: True
+    consts = {}
+    def entry(ex):
+        fv = ex.call('artifact::InterfaceUnit::new', [mkstr('Main'), Opaque('exports'), Opaque('hir_interface'), PyMap('btree')]) if False else None
+        iu = []
+        for fname, fty in IU.variants[0].fields:
+            iu.append({'package': mkstr('Main'), 'deps': PyMap('btree'), 'interface_hash': mkstr('h')}.get(fname, Opaque('iu.' + fname)))
+        # the two version constants: taken from a core built by the real constructor
+        cu0 = ex.call('artifact::CoreUnit::new', [mkstr('Main'), Agg(IU.key, 0, list(iu)), Opaque('core_ir0')])
+        names = [f[0] for f in CU.variants[0].fields]; f0 = dict(zip(names, cu0.fields))
+        iu2 = list(iu)
+        for i, (fname, fty) in enumerate(IU.variants[0].fields):
+            if fname in ('format_version', 'compiler_abi'): iu2[i] = f0[fname]
+        cu = [{'format_version': f0['format_version'], 'compiler_abi': f0['compiler_abi'], 'package': mkstr('Main'), 'interface': Agg(IU.key, 0, iu2), 'deps': PyMap('btree')}.get(n, Opaque('cu.' + n)) for n in names]
+        h = {0: Agg(CU.key, 0, cu)}
+        res = ex.call('artifact::CoreUnit::validate', [Ref(h, 0)])
+        if not isinstance(res, bool): res = ex.branch_bool(res)
+        return bool(res), [n for n, v in zip(names, cu) if isinstance(v, Opaque)]
+    res = e2.explore(r, W, entry, [])
+    for p in res:
+        r.cases += 1
+        if p.kind != 'ok':
+            # an Unsupported access to an opaque field would mean the field is inspected: that is what the oracle asks for
+            r.notes.append('path ended with %s' % str(p.value)[:200]); continue
+        ok_, opaque = p.value; r.nontrivial += 1
+        if ok_ and opaque:
+            try: rp, detail = replay_altered_core()
+            except Exception as e_: rp, detail = False, 'replay failed: %s' % str(e_)[:200]
+            r.findings.append(Finding('core-body-not-validated', 'CoreUnit::validate returns true without inspecting the fields %s: a core file altered there is accepted by link' % opaque, {'fields': opaque}, rp, detail))
+
+_c15_obl7 = obligations
+def obligations():
+    return _c15_obl7() + [Ob('O15.7-core-coverage', 'validation of a core file inspects every field of it', ob_core_coverage, ('quick', 'thorough'), 1, {})]
